@@ -1,6 +1,6 @@
 /-
   The advancement bookkeeping of the complete stroker model on an open fixed-width polyline without
-  merged points (non-round join and caps): every vertex emitted for the `k`-th endpoint carries the
+  merged points (ALL joins and caps: the arc fans of round joins / caps inherit `self.vertex`): every vertex emitted for the `k`-th endpoint carries the
   source `Endpoint(id k)`, the position of that endpoint as `position_on_path`, and as advancement
   the left fold `a_0 = 0, a_k = a_{k-1} + |p_k - p_{k-1}|` of the edge lengths (`advTable`).
 
@@ -69,23 +69,92 @@ theorem Emits.tris {Q : VData α → Prop} {a b : Out α} (h : Emits Q a b) (t :
   obtain ⟨vs, e, q⟩ := h
   exact ⟨vs, by simp [Out.addTris, e], q⟩
 
-theorem lastEdge_emits (e : Env α) (hc : e.o.endCap ≠ .round) (p0 p1 : EP α) (isFirst : Bool) (o : Out α) :
-    Emits (SiteOK p1.src p1.position (p0.advancement + len (p1.position - p0.position))) o (lastEdge e p0 p1 isFirst o).2 := by
-  have hr : (e.o.endCap == Lyon.StrokeQuad.Cap.round) = false := by
-    cases h : e.o.endCap <;> simp_all
-  unfold lastEdge
-  simp only [hr, Bool.false_eq_true, if_false]
-  split_ifs
-  · exact ((Emits.refl _ _).vert ⟨rfl, rfl, rfl⟩).vert ⟨rfl, rfl, rfl⟩
-  · exact (((Emits.refl _ _).vert ⟨rfl, rfl, rfl⟩).vert ⟨rfl, rfl, rfl⟩).tris _
+theorem Emits.tri {Q : VData α → Prop} {a b : Out α} (h : Emits Q a b) (t : Stroke.Tri) :
+    Emits Q a (b.addTri t) := by
+  obtain ⟨vs, e, q⟩ := h
+  exact ⟨vs, by simp [Out.addTri, e], q⟩
 
-theorem firstEdge_emits (e : Env α) (hc : e.o.startCap ≠ .round) (f s : EP α) (o : Out α) :
+/-- `tessellate_arc`: the fan vertices inherit source, position on path and advancement -/
+theorem arc_emits (n : Nat) : ∀ (a0 a1 : α) (va vb : Nat) (d : VData α) (o : Out α),
+    Emits (SiteOK d.src d.positionOnPath d.advancement) o (tessellateArc a0 a1 va vb n d o) := by
+  induction n with
+  | zero => intro a0 a1 va vb d o; exact Emits.refl _ _
+  | succ n ih =>
+    intro a0 a1 va vb d o
+    have s1 : Emits (SiteOK d.src d.positionOnPath d.advancement) o
+        ((o.addVertex { d with normal := ⟨Transc.cos ((a0 + a1) * half), Transc.sin ((a0 + a1) * half)⟩ }).addTri
+          (va, o.nextId, vb)) := ((Emits.refl _ _).vert ⟨rfl, rfl, rfl⟩).tri _
+    exact (s1.trans (ih a0 ((a0 + a1) * half) va o.nextId
+      { d with normal := ⟨Transc.cos ((a0 + a1) * half), Transc.sin ((a0 + a1) * half)⟩ } _)).trans
+      (ih ((a0 + a1) * half) a1 o.nextId vb
+        { d with normal := ⟨Transc.cos ((a0 + a1) * half), Transc.sin ((a0 + a1) * half)⟩ } _)
+
+theorem arc_emits_eq (n : Nat) (a0 a1 : α) (va vb : Nat) (d : VData α) (o : Out α)
+    {s : Src α} {p : P α} {a : α} (hs : d.src = s) (hp : d.positionOnPath = p) (ha : d.advancement = a) :
+    Emits (SiteOK s p a) o (tessellateArc a0 a1 va vb n d o) := by
+  subst hs hp ha; exact arc_emits n a0 a1 va vb d o
+
+/-- `tessellate_round_cap`: its vertices sit on `center` and inherit source and advancement -/
+theorem roundCap_emits (center : P α) (radius : α) (startNormal : P α) (sv ev : Nat)
+    (edgeNormal : P α) (tolerance : α) (isStart : Bool) (d : VData α) (o : Out α)
+    {s : Src α} {a : α} (hs : d.src = s) (ha : d.advancement = a) :
+    Emits (SiteOK s center a) o
+      (tessellateRoundCap center radius startNormal sv ev edgeNormal tolerance isStart d o) := by
+  subst hs ha
+  unfold tessellateRoundCap
+  split_ifs
+  · exact Emits.refl _ _
+  · unfold roundCapBody
+    simp only []
+    have s0 : Emits (SiteOK d.src center d.advancement) o
+        ((o.addVertex (⟨center, radius, normalize edgeNormal, d.advancement,
+            capFirstSide isStart edgeNormal startNormal, d.src⟩ : VData α)).addTri (sv, o.nextId, ev)) :=
+      ((Emits.refl _ _).vert ⟨rfl, rfl, rfl⟩).tri _
+    exact (s0.trans (arc_emits _ _ _ _ _ (⟨center, radius, normalize edgeNormal, d.advancement,
+        capFirstSide isStart edgeNormal startNormal, d.src⟩ : VData α) _)).trans
+      (arc_emits _ _ _ _ _ (⟨center, radius, normalize edgeNormal, d.advancement,
+        (capFirstSide isStart edgeNormal startNormal).opposite, d.src⟩ : VData α) _)
+
+/-- `if count > 2 { add_edge_triangles }  tessellate_join(join)`: round joins included -/
+theorem edgeAndJoin_emits (tol : α) (count : Nat) (prev j : EP α) (d : VData α) (o : Out α) :
+    Emits (SiteOK d.src d.positionOnPath d.advancement) o (edgeAndJoin tol count prev j d o) := by
+  unfold edgeAndJoin tessellateJoin
+  have s1 : Emits (SiteOK d.src d.positionOnPath d.advancement) o
+      (if count > 2 then o.addTris (addEdgeTriangles prev.ids j.ids) else o) := by
+    split_ifs
+    · exact (Emits.refl _ _).tris _
+    · exact Emits.refl _ _
+  have hr : ∀ (c isNeg : Bool) (o' : Out α),
+      Emits (SiteOK d.src d.positionOnPath d.advancement) o' (roundJoinIf c j.toJoin isNeg tol d o') := by
+    intro c isNeg o'
+    unfold roundJoinIf
+    split_ifs
+    · unfold tessellateRoundJoin
+      simp only []
+      split_ifs <;> exact arc_emits_eq _ _ _ _ _ _ _ rfl rfl rfl
+    · exact Emits.refl _ _
+  exact ((s1.tris _).trans (hr _ _ _)).trans (hr _ _ _)
+
+theorem lastEdge_emits (e : Env α) (p0 p1 : EP α) (isFirst : Bool) (o : Out α) :
+    Emits (SiteOK p1.src p1.position (p0.advancement + len (p1.position - p0.position))) o (lastEdge e p0 p1 isFirst o).2 := by
+  unfold lastEdge
+  simp only []
+  split_ifs <;>
+    first
+    | exact ((Emits.refl _ _).vert ⟨rfl, rfl, rfl⟩).vert ⟨rfl, rfl, rfl⟩
+    | exact (((Emits.refl _ _).vert ⟨rfl, rfl, rfl⟩).vert ⟨rfl, rfl, rfl⟩).tris _
+    | exact (((Emits.refl _ _).vert ⟨rfl, rfl, rfl⟩).vert ⟨rfl, rfl, rfl⟩).trans
+        (roundCap_emits _ _ _ _ _ _ _ _ _ _ rfl rfl)
+
+theorem firstEdge_emits (e : Env α) (f s : EP α) (o : Out α) :
     Emits (SiteOK f.src f.position f.advancement) o (firstEdge e f s o) := by
-  have hr : (e.o.startCap == Lyon.StrokeQuad.Cap.round) = false := by
-    cases h : e.o.startCap <;> simp_all
   unfold firstEdge
-  simp only [hr, Bool.false_eq_true, if_false]
-  exact (((Emits.refl _ _).vert ⟨rfl, rfl, rfl⟩).vert ⟨rfl, rfl, rfl⟩).tris _
+  simp only []
+  split_ifs <;>
+    first
+    | exact (((Emits.refl _ _).vert ⟨rfl, rfl, rfl⟩).vert ⟨rfl, rfl, rfl⟩).tris _
+    | exact ((((Emits.refl _ _).vert ⟨rfl, rfl, rfl⟩).vert ⟨rfl, rfl, rfl⟩).tris _).trans
+        (roundCap_emits _ _ _ _ _ _ _ _ _ _ rfl rfl)
 
 /-- the advancement `compute_join_side_positions_fixed_width` leaves in the join -/
 theorem joinSidesFw_adv (ix : Lyon.StrokeQuad.Ix α) (prev join next : EP α) (ml vhw : α) :
@@ -102,12 +171,10 @@ def joinAdv (a b : EP α) : α :=
   if Transc.isNaN b.advancement then a.advancement + len (b.position - a.position) else b.advancement
 
 /-- a fixed-width join of a fresh endpoint: what it emits -/
-theorem fwJoin_advs {e : Env α} (hj : e.o.join ≠ .round) (st : St α) (prev join next : EP α) (hf : Fresh e join) :
+theorem fwJoin_advs {e : Env α} (st : St α) (prev join next : EP α) (hf : Fresh e join) :
     ∃ j2 o', fwJoin e st prev join next = (commitSt st prev j2 o', next)
       ∧ j2.position = join.position ∧ j2.src = join.src ∧ j2.advancement = joinAdv prev join
       ∧ Emits (SiteOK join.src join.position (joinAdv prev join)) st.out o' := by
-  have hr : (join.lineJoin == Lyon.StrokeQuad.Join.round) = false := by
-    rw [hf.lj]; cases h : e.o.join <;> simp_all
   obtain ⟨_, s2, s3⟩ := joinSidesFw_singles e.ix prev join next e.o.miterLimit join.halfWidth hf.ps hf.ns
   obtain ⟨a1, a2⟩ := joinSidesFw_adv e.ix prev join next e.o.miterLimit join.halfWidth
   generalize hj1 : joinSidesFw e.ix prev join next e.o.miterLimit join.halfWidth = j1 at s2 s3 a1 a2
@@ -123,12 +190,12 @@ theorem fwJoin_advs {e : Env α} (hj : e.o.join ≠ .round) (st : St α) (prev j
     show _ = _
     simp only [show (baseVertex join.src join.position join.halfWidth nan : VData α).halfWidth = join.halfWidth from rfl, hj1]
     rw [edd]; rfl
-  · refine Emits.trans ?_ (Emits.of_verts_eq (edgeAndJoin_verts _ _ _ _ _ _ (by rw [b3, s3]; exact hr)))
-    have : SiteOK dd.src dd.positionOnPath dd.advancement = SiteOK join.src join.position (joinAdv prev join) := by
+  · have : SiteOK dd.src dd.positionOnPath dd.advancement = SiteOK join.src join.position (joinAdv prev join) := by
       rw [edd]; show SiteOK join.src join.position j1.advancement = _; rw [a1]; rfl
-    rw [← this]; exact c1
+    rw [← this]
+    exact c1.trans (edgeAndJoin_emits _ _ _ _ dd _)
 
-theorem fwStep_join_advs {e : Env α} (hj : e.o.join ≠ .round) {st : St α} (hwf : WF st.buf) {a b : EP α}
+theorem fwStep_join_advs {e : Env α} {st : St α} (hwf : WF st.buf) {a b : EP α}
     (hab : st.buf.lastTwo = some (a, b)) (hb : Fresh e b) (next : EP α)
     (hfar : pointsAreTooClose e.thr b.position next.position = false) :
     ∃ b', (fwStep e st next).1.buf.lastTwo = some (b', next) ∧ WF (fwStep e st next).1.buf
@@ -138,7 +205,7 @@ theorem fwStep_join_advs {e : Env α} (hj : e.o.join ≠ .round) {st : St α} (h
       ∧ (fwStep e st next).1.firsts = (if st.buf.count == 2 then [a, b'] else st.firsts) := by
   have hlast := hwf.lastTwo_last _ _ hab
   have hclose : st.tooClose e.thr next.position = false := by rw [tooClose_eq hlast]; exact hfar
-  obtain ⟨j2, o', ej, hp, hs, ha, hv⟩ := fwJoin_advs hj st a b next hb
+  obtain ⟨j2, o', ej, hp, hs, ha, hv⟩ := fwJoin_advs st a b next hb
   rw [fwStep_eq_join hclose hab, ej]
   have hc2 := WF.lastTwo_count _ _ hab
   have hle := hwf.count_le
@@ -171,6 +238,12 @@ theorem advTable_tail (a : α) (q q' : Nat × P α) (r : List (Nat × P α)) :
     ∀ t ∈ advTable (a + len (q'.2 - q.2)) (q' :: r), t ∈ advTable a (q :: q' :: r) := by
   intro t ht; simp only [advTable, List.mem_cons]; exact Or.inr ht
 
+theorem advTable_getLast (a : α) (q q' : Nat × P α) (r : List (Nat × P α)) :
+    (advTable a (q :: q' :: r)).getLast? = (advTable (a + len (q'.2 - q.2)) (q' :: r)).getLast? := by
+  cases r with
+  | nil => simp [advTable]
+  | cons x xs => simp [advTable]
+
 theorem joinAdv_eq (hnan : Transc.isNaN (nan : α) = true) {a b : EP α}
     (h : b.advancement = nan ∨ b.advancement = a.advancement + len (b.position - a.position)) :
     joinAdv a b = a.advancement + len (b.position - a.position) := by
@@ -183,7 +256,7 @@ theorem joinAdv_eq (hnan : Transc.isNaN (nan : α) = true) {a b : EP α}
 
 /-- the `line_to` loop: every join emits vertices that agree with the table; at the end the last two
 entries of the window are the last two points, the newest one waiting for its advancement -/
-theorem feedFw_advs {e : Env α} (hj : e.o.join ≠ .round) (hnan : Transc.isNaN (nan : α) = true)
+theorem feedFw_advs {e : Env α} (hnan : Transc.isNaN (nan : α) = true)
     (f0 : EP α) (rest : List (Nat × P α)) :
     ∀ (st : St α) (a b : EP α) (ib : Nat), WF st.buf → st.buf.lastTwo = some (a, b) → Fresh e b →
       b.src = .endpoint ib →
@@ -196,17 +269,20 @@ theorem feedFw_advs {e : Env α} (hj : e.o.join ≠ .round) (hnan : Transc.isNaN
         ∧ b'.src = .endpoint il
         ∧ (il, b'.position, a'.advancement + len (b'.position - a'.position))
             ∈ advTable (a.advancement + len (b.position - a.position)) ((ib, b.position) :: rest)
+        ∧ (advTable (a.advancement + len (b.position - a.position)) ((ib, b.position) :: rest)).getLast?
+            = some (il, b'.position, a'.advancement + len (b'.position - a'.position))
         ∧ (((rest.foldl (fun s q => (fwStep e s (linePt e q)).1) st).buf.count = 2 ∧ a' = f0)
           ∨ ((rest.foldl (fun s q => (fwStep e s (linePt e q)).1) st).buf.count = 3
-              ∧ (rest.foldl (fun s q => (fwStep e s (linePt e q)).1) st).firsts.head? = some f0)) := by
+              ∧ (rest.foldl (fun s q => (fwStep e s (linePt e q)).1) st).firsts.head? = some f0))
+        ∧ WF (rest.foldl (fun s q => (fwStep e s (linePt e q)).1) st).buf := by
   induction rest with
   | nil =>
     intro st a b ib hwf hab _ hsrc _ _ hfirst
-    exact ⟨a, b, ib, hab, Emits.refl _ _, hsrc, by simp [advTable], hfirst⟩
+    exact ⟨a, b, ib, hab, Emits.refl _ _, hsrc, by simp [advTable], by simp [advTable], hfirst, hwf⟩
   | cons q rest ih =>
     intro st a b ib hwf hab hb hsrc hadv hm hfirst
     obtain ⟨hfar, hm'⟩ := hm
-    obtain ⟨b1, h1, h2, h3, h4, h5, h6, h7, h8⟩ := fwStep_join_advs hj hwf hab hb (linePt e q) hfar
+    obtain ⟨b1, h1, h2, h3, h4, h5, h6, h7, h8⟩ := fwStep_join_advs hwf hab hb (linePt e q) hfar
     have hA := joinAdv_eq hnan hadv
     rw [hA] at h5 h6
     have hfirst' : ((fwStep e st (linePt e q)).1.buf.count = 2 ∧ b1 = f0)
@@ -218,11 +294,12 @@ theorem feedFw_advs {e : Env α} (hj : e.o.join ≠ .round) (hnan : Transc.isNaN
       · simp [hc]
       · have : (st.buf.count == 2) = false := by simp [hc]
         rw [this]; exact hf
-    obtain ⟨a'', b'', il, g1, g2, g3, g4, g5⟩ := ih _ b1 (linePt e q) q.1 h2 h1 (fresh_mk' e _ _ _) rfl (Or.inl rfl)
+    obtain ⟨a'', b'', il, g1, g2, g3, g4, g4l, g5, g6⟩ := ih _ b1 (linePt e q) q.1 h2 h1 (fresh_mk' e _ _ _) rfl (Or.inl rfl)
       hm' hfirst'
     have hpos : (linePt e q).position = q.2 := rfl
-    rw [h5, h3, hpos] at g2 g4
-    refine ⟨a'', b'', il, g1, ?_, g3, advTable_tail _ (ib, b.position) q rest _ g4, g5⟩
+    rw [h5, h3, hpos] at g2 g4 g4l
+    refine ⟨a'', b'', il, g1, ?_, g3, advTable_tail _ (ib, b.position) q rest _ g4,
+      by rw [advTable_getLast _ (ib, b.position) q rest]; exact g4l, g5, g6⟩
     rw [List.foldl_cons]
     refine Emits.trans (Emits.mono ?_ h6) (Emits.mono ?_ g2)
     · rintro v ⟨v1, v2, v3⟩
@@ -324,13 +401,12 @@ theorem run_open_subpath_x (e : Env α) (store : Nat → List α) (hfw : e.o.var
 
 /-- **advancement of a fixed-width polyline** (any scalar type).  Fixed line width, a sub-path
 `begin p0, line_to p1, line_to …, end(false)` at the start of a tessellation, none of whose points is
-merged (`NoMerge`), join kind Miter / MiterClip / Bevel, butt or square caps, `is_nan(NaN) = true`:
+merged (`NoMerge`), every join kind and cap, `is_nan(NaN) = true`:
 every emitted vertex names an endpoint `k` of the input as its source, has that endpoint's position
 as `position_on_path`, and its advancement is entry `k` of `advTable`: `0` for the first point,
 `a_{k-1} + |p_k − p_{k-1}|` (`Vector::length`, the model's own additions in the model's order) for
 the `k`-th — the sum of the lengths of the first `k` edges. -/
 theorem polyline_advancement (e : Env α) (store : Nat → List α) (hfw : e.o.varWidth = false)
-    (hj : e.o.join ≠ .round) (hs : e.o.startCap ≠ .round) (he : e.o.endCap ≠ .round)
     (hnan : Transc.isNaN (nan : α) = true)
     (i0 i1 : Nat) (p0 p1 : P α) (rest : List (Nat × P α))
     (hm : NoMerge e.thr (p0 :: p1 :: rest.map (·.2))) :
@@ -348,7 +424,7 @@ theorem polyline_advancement (e : Env α) (store : Nat → List α) (hfw : e.o.v
     show (if Transc.isNaN (nan : α) then zero + len (p1 - p0) else nan) = zero + len (p1 - p0)
     rw [hnan]; rfl
   have hBfresh : Fresh e (secondPt e i0 i1 p0 p1) := ⟨rfl, rfl, rfl, rfl, rfl⟩
-  obtain ⟨a', b', il, g1, g2, g3, g4, g5⟩ := feedFw_advs hj hnan (firstPt e i0 i1 p0 p1) rest st2 _ _ i1 hwf2 hab hBfresh rfl
+  obtain ⟨a', b', il, g1, g2, g3, g4, _, g5, _⟩ := feedFw_advs hnan (firstPt e i0 i1 p0 p1) rest st2 _ _ i1 hwf2 hab hBfresh rfl
     (Or.inr hBadv) (by rw [hBp]; exact hm') (Or.inl ⟨hc2, rfl⟩)
   rw [hA.1, hA.2.1, hBp] at g2 g4
   set st' := rest.foldl (fun s q => (fwStep e s (linePt e q)).1) st2 with hst'
@@ -382,12 +458,12 @@ theorem polyline_advancement (e : Env α) (store : Nat → List α) (hfw : e.o.v
         (capsOut e { st' with mayNeedEmptyCap := st'.mayNeedEmptyCap || (false && st'.buf.count == 1) } a' b').2 := by
       show Emits _ st'.out (lastEdge e a' (if e.o.varWidth then b' else lastSidesFw a' b') (st'.buf.count == 2) st'.out).2
       rw [hfw]
-      refine Emits.mono ?_ (lastEdge_emits e he a' (lastSidesFw a' b') (st'.buf.count == 2) st'.out)
+      refine Emits.mono ?_ (lastEdge_emits e a' (lastSidesFw a' b') (st'.buf.count == 2) st'.out)
       rintro v ⟨v1, v2, v3⟩
       exact ⟨_, hT _ g4, by rw [v1]; exact g3, v2, v3⟩
     refine s1.trans (s2.trans ?_)
     rw [hfirstF]
-    refine Emits.mono ?_ (firstEdge_emits e hs _ _ _)
+    refine Emits.mono ?_ (firstEdge_emits e _ _ _)
     rintro v ⟨v1, v2, v3⟩
     exact ⟨_, advTable_head zero (i0, p0) ((i1, p1) :: rest), v1, v2, v3⟩
   obtain ⟨vs, ev, qv⟩ := hall
